@@ -1188,3 +1188,265 @@ Proof.
       exists F', rv'. split; [exact HF'|]. rewrite E2. rewrite set_set_dbi.
       unfold d1. rewrite (add_keys_cons_live now now' ws wl d k e l Ex). reflexivity.
 Qed.
+
+(** ------------------------------------------------------------------ *)
+(** * C09: one database, all databases, the whole file *)
+Lemma add_keys_empty now now' ws wl d :
+  add_keys now now' ws wl empty_db (d_data d) = aged_db now now' ws wl d.
+Proof. unfold add_keys, aged_db, live_keys, live, empty_db. cbn [d_data d_index]. now rewrite !app_nil_r. Qed.
+
+Lemma load_loop_selectdb chk now wall f cur ds n r rv :
+  0 <= n < two32 ->
+  load_loop chk now wall (S f) cur ds (mkrd (OP_SELECTDB :: write_length n ++ r) rv)
+  = load_loop chk now wall f n ds (mkrd r rv).
+Proof.
+  intros Hn. rewrite load_loop_eq, read_byte_cons.
+  change (OP_SELECTDB =? OP_EOF) with false. change (OP_SELECTDB =? OP_SELECTDB) with true. cbv iota.
+  now rewrite read_length_write.
+Qed.
+Lemma load_loop_resizedb chk now wall f cur ds n m r rv :
+  0 <= n < two32 -> 0 <= m < two32 ->
+  load_loop chk now wall (S f) cur ds (mkrd (OP_RESIZEDB :: write_length n ++ write_length m ++ r) rv)
+  = load_loop chk now wall f cur ds (mkrd r rv).
+Proof.
+  intros Hn Hm. rewrite load_loop_eq, read_byte_cons.
+  change (OP_RESIZEDB =? OP_EOF) with false. change (OP_RESIZEDB =? OP_SELECTDB) with false.
+  change (OP_RESIZEDB =? OP_RESIZEDB) with true. cbv iota.
+  rewrite (bind_ok _ _ _ n (mkrd (write_length m ++ r) rv)) by (apply read_length_write; exact Hn).
+  now rewrite read_length_write.
+Qed.
+Lemma load_loop_aux chk now wall f cur ds k v r rv :
+  len k < two32 -> len v < two32 ->
+  exists rv', load_loop chk now wall (S f) cur ds (mkrd (write_aux k v ++ r) rv)
+            = load_loop chk now wall f cur ds (mkrd r rv').
+Proof.
+  intros Hk Hv. unfold write_aux. cbn [app]. rewrite load_loop_eq, read_byte_cons.
+  change (OP_AUX =? OP_EOF) with false. change (OP_AUX =? OP_SELECTDB) with false.
+  change (OP_AUX =? OP_RESIZEDB) with false. change (OP_AUX =? OP_AUX) with true. cbv iota.
+  rewrite <- app_assoc.
+  rewrite (bind_ok _ _ _ k (mkrd (write_string v ++ r) (Z.max rv (len k)))) by (apply read_string_write; exact Hk).
+  rewrite (read_string_write v r _ Hv). eexists. reflexivity.
+Qed.
+
+Lemma load_loop_db chk now now' ws wl i d : forall F cur ds r rv,
+  0 <= ws -> get_dbi ds i = Some empty_db -> db_ok now ws wl d = true ->
+  (length (write_db now ws i d ++ r) < F)%nat ->
+  exists F' cur' rv', (length r < F')%nat /\
+    load_loop chk now' wl F cur ds (mkrd (write_db now ws i d ++ r) rv)
+    = load_loop chk now' wl F' cur' (set_dbi ds i (aged_db now now' ws wl d)) (mkrd r rv').
+Proof.
+  intros F cur ds r rv Hws Hd Hok HF.
+  pose proof (get_dbi_bound _ _ _ Hd) as Hi. unfold ndb in Hi.
+  unfold db_ok in Hok. apply andb_prop in Hok. destruct Hok as [Hok Hall]. apply andb_prop in Hok.
+  destruct Hok as [Hn Hnd]. unfold lt32 in Hn. apply Z.ltb_lt in Hn. apply nodupb_NoDup in Hnd.
+  rewrite <- add_keys_empty.
+  unfold write_db in *. destruct (d_data d) as [|ke l] eqn:Edata.
+  - exists F, cur, rv. split; [exact HF|]. cbn [app].
+    replace (add_keys now now' ws wl empty_db []) with empty_db by reflexivity.
+    now rewrite (set_dbi_same ds i _ Hd).
+  - rewrite <- Edata in *. clear Edata ke l.
+    pose proof (len_nonneg (d_data d)) as Hl0.
+    cbn [app] in *. rewrite <- !app_assoc in *. cbn [app] in *. rewrite <- !app_assoc in *.
+    destruct F as [|[|f]]; [cbn [length] in HF; lia | |].
+    { cbn [length] in HF. rewrite !app_length in HF. pose proof (write_length_length i).
+      remember (length (write_length i)) as x. cbn [length] in HF. lia. }
+    rewrite load_loop_selectdb by (unfold two32; lia).
+    rewrite load_loop_resizedb by lia.
+    destruct (load_loop_keys chk now now' ws wl i (d_data d) f ds empty_db r rv Hws Hd Hnd) as (F' & rv' & HF' & E).
+    + intros k _. unfold fresh, empty_db. cbn [d_data d_index map]. split; intros [].
+    + exact Hall.
+    + cbn [length] in HF. rewrite !app_length in HF. cbn [length] in HF. rewrite !app_length in HF.
+      pose proof (write_length_length i). remember (length (write_length i)) as x.
+      remember (length (write_length (len (d_data d)))) as y.
+      remember (length (flat_map (write_key now ws) (d_data d))) as z.
+      rewrite app_length. rewrite <- Heqz. lia.
+    + exists F', i, rv'. split; [exact HF'|]. exact E.
+Qed.
+
+Lemma nth_error_app_mid {A} (p : list A) x q : nth_error (p ++ x :: q) (length p) = Some x.
+Proof. induction p; cbn; auto. Qed.
+Lemma set_nth_app_mid {A} (p : list A) x y q : set_nth (p ++ x :: q) (length p) y = p ++ y :: q.
+Proof. induction p; cbn; auto. now f_equal. Qed.
+
+Lemma load_loop_dbs chk now now' ws wl l : forall pre F cur r rv,
+  0 <= ws -> (length pre + length l = 16)%nat -> forallb (db_ok now ws wl) l = true ->
+  (length (write_dbs now ws (Z.of_nat (length pre)) l ++ r) < F)%nat ->
+  exists F' cur' rv', (length r < F')%nat /\
+    load_loop chk now' wl F cur (pre ++ repeat empty_db (length l)) (mkrd (write_dbs now ws (Z.of_nat (length pre)) l ++ r) rv)
+    = load_loop chk now' wl F' cur' (pre ++ map (aged_db now now' ws wl) l) (mkrd r rv').
+Proof.
+  induction l as [|d l IH]; intros pre F cur r rv Hws Hlen Hok HF.
+  - exists F, cur, rv. split; [exact HF|]. reflexivity.
+  - cbn [forallb] in Hok. apply andb_prop in Hok. destruct Hok as [Hd Hok].
+    cbn [write_dbs] in *. rewrite <- app_assoc in *. cbn [length repeat map] in *.
+    assert (Hget : get_dbi (pre ++ empty_db :: repeat empty_db (length l)) (Z.of_nat (length pre)) = Some empty_db).
+    { unfold get_dbi, ndb. replace ((Z.of_nat (length pre) <? 0) || (16 <=? Z.of_nat (length pre))) with false by lia.
+      rewrite Nat2Z.id. apply nth_error_app_mid. }
+    destruct (load_loop_db chk now now' ws wl (Z.of_nat (length pre)) d F cur _ (write_dbs now ws (Z.of_nat (length pre) + 1) l ++ r) rv Hws Hget Hd HF)
+      as (F1 & cur1 & rv1 & HF1 & E1).
+    rewrite E1. unfold set_dbi. rewrite Nat2Z.id, set_nth_app_mid.
+    replace (pre ++ aged_db now now' ws wl d :: repeat empty_db (length l))
+      with ((pre ++ [aged_db now now' ws wl d]) ++ repeat empty_db (length l)) by (now rewrite <- app_assoc).
+    replace (Z.of_nat (length pre) + 1) with (Z.of_nat (length (pre ++ [aged_db now now' ws wl d]))) in *
+      by (rewrite app_length; cbn [length]; lia).
+    destruct (IH (pre ++ [aged_db now now' ws wl d]) F1 cur1 r rv1 Hws) as (F' & cur' & rv' & HF' & E2).
+    + rewrite app_length. cbn [length]. lia.
+    + exact Hok.
+    + exact HF1.
+    + exists F', cur', rv'. split; [exact HF'|]. rewrite E2. now rewrite <- app_assoc.
+Qed.
+
+Lemma read_header_ok r rv : read_header (mkrd (magic ++ version4 ++ r) rv) = (Some tt, mkrd r rv).
+Proof.
+  unfold read_header.
+  rewrite (bind_ok _ _ _ magic (mkrd (version4 ++ r) rv)) by (apply read_exact_app; reflexivity).
+  rewrite beq_refl. cbn [negb].
+  rewrite (bind_ok _ _ _ version4 (mkrd r rv)) by (apply read_exact_app; reflexivity).
+  reflexivity.
+Qed.
+
+Lemma byte_sum_nonneg_mod b : 0 <= byte_sum b mod two64 < two64.
+Proof. apply Z.mod_pos_bound. reflexivity. Qed.
+
+Lemma empty_dbs_repeat : empty_dbs = [] ++ repeat empty_db 16.
+Proof. reflexivity. Qed.
+
+Theorem roundtrip chk ver ctime now now' ws wl ds :
+  0 <= ws -> len ver < two32 -> rt_guard now ws wl ds = true ->
+  load_status (load chk now' wl (save ver ctime now ws ds)) = LOk /\
+  load_dbs (load chk now' wl (save ver ctime now ws ds)) = map (aged_db now now' ws wl) ds.
+Proof.
+  intros Hws Hver Hg. unfold rt_guard in Hg. apply andb_prop in Hg. destruct Hg as [Hlen Hok].
+  apply Nat.eqb_eq in Hlen.
+  unfold load, load_from. set (b := save ver ctime now ws ds).
+  assert (Hb : b = magic ++ version4 ++ write_aux (bs "redis-ver") ver ++ write_aux (bs "ctime") (print_nat ctime)
+                   ++ write_dbs now ws 0 ds ++ OP_EOF :: u64_le (byte_sum (save_body ver ctime now ws ds) mod two64)).
+  { unfold b, save, save_body. rewrite <- !app_assoc. reflexivity. }
+  remember (S (length b)) as F eqn:HF0.
+  assert (HF : (length b < F)%nat) by lia. clear HF0.
+  rewrite Hb in *. clear Hb b.
+  fold (mkrd (magic ++ version4 ++ write_aux (bs "redis-ver") ver ++ write_aux (bs "ctime") (print_nat ctime)
+              ++ write_dbs now ws 0 ds ++ OP_EOF :: u64_le (byte_sum (save_body ver ctime now ws ds) mod two64)) 0).
+  rewrite read_header_ok.
+  rewrite !app_length in HF.
+  destruct F as [|[|f]]; [lia | change (length magic) with 5%nat in HF; lia |].
+  destruct (load_loop_aux chk now' wl (S f) 0 empty_dbs (bs "redis-ver") ver
+              (write_aux (bs "ctime") (print_nat ctime) ++ write_dbs now ws 0 ds ++
+               OP_EOF :: u64_le (byte_sum (save_body ver ctime now ws ds) mod two64)) 0) as [rv1 E1];
+    [reflexivity | exact Hver |].
+  rewrite E1.
+  destruct (load_loop_aux chk now' wl f 0 empty_dbs (bs "ctime") (print_nat ctime)
+              (write_dbs now ws 0 ds ++ OP_EOF :: u64_le (byte_sum (save_body ver ctime now ws ds) mod two64)) rv1) as [rv2 E2];
+    [reflexivity | pose proof (len_print_nat ctime); unfold two32; lia |].
+  rewrite E2.
+  destruct (load_loop_dbs chk now now' ws wl ds [] f 0
+              (OP_EOF :: u64_le (byte_sum (save_body ver ctime now ws ds) mod two64)) rv2 Hws) as (F' & cur' & rv' & HF' & E3).
+  - cbn [length]. lia.
+  - exact Hok.
+  - cbn [length]. change (Z.of_nat 0) with 0.
+    unfold write_aux in HF. cbn [length app] in HF. rewrite !app_length in HF.
+    change (length magic) with 5%nat in HF. change (length version4) with 4%nat in HF.
+    rewrite app_length. cbn [length] in *. lia.
+  - cbn [app length] in E3. change (Z.of_nat 0) with 0 in E3. rewrite Hlen in E3.
+    change (repeat empty_db 16) with empty_dbs in E3.
+    rewrite E3.
+    destruct F' as [|f']; [cbn [length] in HF'; lia|].
+    rewrite load_loop_eq, read_byte_cons. change (OP_EOF =? OP_EOF) with true. cbv iota.
+    replace (u64_le (byte_sum (save_body ver ctime now ws ds) mod two64))
+      with (u64_le (byte_sum (save_body ver ctime now ws ds) mod two64) ++ []) by apply app_nil_r.
+    rewrite read_u64_le_ok by apply byte_sum_nonneg_mod.
+    split; reflexivity.
+Qed.
+
+(** deadlines: the drift of a reloaded deadline is the difference of the two clocks' advances *)
+Lemma shift_drift now now' ws wl t : shift now now' ws wl t - t = (now' - now) - (wl - ws).
+Proof. unfold shift. lia. Qed.
+Lemma shift_same_speed now now' ws wl t : now' - now = wl - ws -> shift now now' ws wl t = t.
+Proof. unfold shift. lia. Qed.
+
+(** ------------------------------------------------------------------ *)
+(** * C10 (3): the loader never panics without overflow checks *)
+Definition is_panic {A} (r : step A) : bool := match r with SPanic _ _ => true | _ => false end.
+
+Lemma load_stream_no_panic fuel : forall ds i k idx remaining s,
+  is_panic (load_stream false fuel ds i k idx remaining s) = false.
+Proof.
+  induction fuel as [|f IH]; intros ds i k idx remaining s; rewrite load_stream_eq; [reflexivity|].
+  destruct (remaining <=? idx); [reflexivity|].
+  destruct (remaining <=? idx + 2); [reflexivity|].
+  destruct (read_string s) as [[id_str|] s1]; [|reflexivity].
+  destruct (read_string s1) as [[fc_str|] s2]; [|reflexivity].
+  cbv zeta. cbn [andb].
+  match goal with |- context [if ?c then SOk tt s2 ds else _] => destruct c; [reflexivity|] end.
+  match goal with |- context [read_pairs ?a ?b ?c ?d] => destruct (read_pairs a b c d) as [[fv|] s3]; [|reflexivity] end.
+  apply IH.
+Qed.
+
+Lemma lift_api_no_panic {A} (a : A) s ds r : is_panic (lift_api a s ds r) = false.
+Proof. destruct r; reflexivity. Qed.
+
+Lemma load_kv_no_panic now ds i vt ttl s : is_panic (load_kv false now ds i vt ttl s) = false.
+Proof.
+  unfold load_kv.
+  destruct (vt =? T_STRING).
+  { destruct (read_string s) as [[k|] s1]; [|reflexivity].
+    destruct (read_string s1) as [[v|] s2]; [|reflexivity]. apply lift_api_no_panic. }
+  destruct ((vt =? T_ZSET) || (vt =? T_ZSET2)).
+  { destruct (read_string s) as [[k|] s1]; [|reflexivity].
+    destruct (read_length s1) as [[n|] s2]; [|reflexivity].
+    destruct (read_zitems_partial (S (length (r_in s))) n [] s2) as [[items ok] s3].
+    destruct (api_zadd_all ds i k items); [|reflexivity].
+    destruct ok; [apply lift_api_no_panic | reflexivity]. }
+  destruct (vt =? T_LIST).
+  { destruct (read_string s) as [[k|] s1]; [|reflexivity].
+    destruct (read_length s1) as [[n|] s2]; [|reflexivity].
+    destruct (1 <=? n); [|apply lift_api_no_panic].
+    destruct (read_string s2) as [[first|] s3]; [|reflexivity].
+    destruct (beq first marker).
+    - pose proof (load_stream_no_panic (S (length (r_in s))) ds i k 0 (n - 1) s3) as H.
+      destruct (load_stream false (S (length (r_in s))) ds i k 0 (n - 1) s3); [apply lift_api_no_panic | reflexivity | discriminate].
+    - destruct (api_rpush ds i k [first]); [|reflexivity].
+      destruct (read_strings_partial (S (length (r_in s))) (n - 1) [] s3) as [[els ok] s4].
+      match goal with |- context [match ?x with Some ds2 => _ | None => _ end] => destruct x; [|reflexivity] end.
+      destruct ok; [apply lift_api_no_panic | reflexivity]. }
+  destruct (vt =? T_SET).
+  { destruct (read_string s) as [[k|] s1]; [|reflexivity].
+    destruct (read_length s1) as [[n|] s2]; [|reflexivity].
+    destruct (read_strings (S (length (r_in s))) n [] s2) as [[ms|] s3]; [|reflexivity].
+    destruct (api_sadd ds i k ms); [apply lift_api_no_panic | reflexivity]. }
+  destruct (vt =? T_HASH).
+  { destruct (read_string s) as [[k|] s1]; [|reflexivity].
+    destruct (read_length s1) as [[n|] s2]; [|reflexivity].
+    destruct (read_pairs (S (length (r_in s))) n [] s2) as [[fv|] s3]; [|reflexivity].
+    destruct (api_hset ds i k fv); [apply lift_api_no_panic | reflexivity]. }
+  reflexivity.
+Qed.
+
+Lemma load_loop_no_panic now wall fuel : forall cur ds s,
+  fst (fst (load_loop false now wall fuel cur ds s)) <> LPanic.
+Proof.
+  induction fuel as [|f IH]; intros cur ds s; [cbn; discriminate|].
+  rewrite load_loop_eq.
+  destruct (read_byte s) as [[op|] s1]; [|cbn; discriminate].
+  destruct (op =? OP_EOF). { destruct (read_u64_le s1) as [[x|] s2]; cbn; discriminate. }
+  destruct (op =? OP_SELECTDB). { destruct (read_length s1) as [[x|] s2]; [apply IH | cbn; discriminate]. }
+  destruct (op =? OP_RESIZEDB).
+  { match goal with |- context [match ?m s1 with _ => _ end] => destruct (m s1) as [[x|] s2] end; [apply IH | cbn; discriminate]. }
+  destruct (op =? OP_AUX).
+  { match goal with |- context [match ?m s1 with _ => _ end] => destruct (m s1) as [[x|] s2] end; [apply IH | cbn; discriminate]. }
+  cbv zeta.
+  match goal with |- context [match ?r with SOk _ _ _ => _ | SErr _ _ => _ | SPanic _ _ => _ end] =>
+    assert (Hp : is_panic r = false); [|destruct r; [apply IH | cbn; discriminate | discriminate]] end.
+  destruct (op =? OP_EXPIRE_MS).
+  { destruct (read_u64_le s1) as [[e|] s2]; [|reflexivity]. unfold load_kv_expiry.
+    destruct (read_byte s2) as [[vt|] s3]; [apply load_kv_no_panic | reflexivity]. }
+  destruct (op =? OP_EXPIRE_S).
+  { destruct (read_u32_le s1) as [[e|] s2]; [|reflexivity]. unfold load_kv_expiry.
+    destruct (read_byte s2) as [[vt|] s3]; [apply load_kv_no_panic | reflexivity]. }
+  apply load_kv_no_panic.
+Qed.
+
+Theorem load_no_panic_release now wall ds0 b : load_status (load_from false now wall ds0 b) <> LPanic.
+Proof.
+  unfold load_status, load_from. destruct (read_header _) as [[u|] s1]; [apply load_loop_no_panic | cbn; discriminate].
+Qed.
